@@ -1,1 +1,530 @@
-/-! # C15 — property theorems (not built yet) -/
+import RsMatterVerif.Lemmas.Transport
+/-!
+# C15 — a nonce is never used for two different messages
+
+Theorems over `Model/Transport.lean`:
+1. send counters: on every history of operations on a session, a message that is not a
+   retransmission carries a counter strictly greater than every earlier one
+   (`new_counter_above_all_earlier`); two wire messages with the same counter ⇒ the later one is a
+   retransmission (`same_counter_is_retransmission`);
+2. a retransmission is identical in everything the transport decides: same counter, same
+   piggy-backed acknowledgement, for every interleaving with received messages that respect the
+   one-outstanding-message discipline (`retransmissions_identical`); the discipline is needed
+   (`ack_changes_without_discipline`);
+3. identifiers: the allocators never return an id that is live (`nextSessId_fresh`,
+   `nextExchId_fresh`), for every table state; responder exchanges are opened only when no live
+   exchange has that (id, role) (`exchUniq_postRecv`); hence (id, role) stays unique
+   among the live exchanges of a session under every receive, initiate and drop step
+   (`exchUniq_postRecv`, `initiate_keeps_uniq`, `exchUniq_removeExch`).
+
+The model's counters are unbounded naturals; the Rust `u32` send counter starts below 2^28 and the
+correspondence holds while it stays below 2^32 (stated in `docs/C15.md`).
+-/
+namespace C15
+open Transport
+
+/-! ## 1. Send counters -/
+
+/-- operations on one session, as the transport performs them -/
+inductive SOp
+  /-- `Session::pre_send` -/
+  | tx (idx : Option Nat) (rel : Bool) (hdrAck sai : Option Nat)
+  /-- `Session::post_recv` -/
+  | rx (h : RxHdr) (now : Nat)
+  /-- `add_exch(id, Initiator)` -/
+  | open_ (id : Nat)
+  /-- `remove_exch(i)` (exchange dropped by its owner) -/
+  | close (i : Nat)
+  /-- the closer frees a slot -/
+  | free (i : Nat)
+
+def stepS (s : Sess) : SOp → Sess × Option TxOut
+  | .tx idx rel ha sai =>
+    match s.preSend idx rel ha sai with
+    | (s', .ok o) => (s', some o)
+    | (s', .error _) => (s', none)
+  | .rx h now => ((s.postRecv h now).1, none)
+  | .open_ id => (match s.addExch id .io with
+    | some (s', _) => s'
+    | none => s, none)
+  | .close i => ((s.removeExch i).1, none)
+  | .free i => ({ s with exchs := s.exchs.set i none }, none)
+
+/-- run a history, collecting what was put on the wire (in order) -/
+def runS : Sess → List SOp → Sess × List TxOut
+  | s, [] => (s, [])
+  | s, op :: ops =>
+    let r := stepS s op
+    let rest := runS r.1 ops
+    (rest.1, (match r.2 with
+      | some o => [o]
+      | none => []) ++ rest.2)
+
+/-- a fresh session satisfies the invariant: no exchange, no pending retransmission -/
+theorem slotsBelow_fresh (uid ctr : Nat) : SlotsBelow ({ uid := uid, ctr := ctr } : Sess) ctr := by
+  intro j e r hs _
+  simp [Sess.slot] at hs
+
+theorem stepS_facts (s : Sess) (op : SOp) (hinv : SlotsBelow s s.ctr) :
+    SlotsBelow (stepS s op).1 (stepS s op).1.ctr ∧ s.ctr ≤ (stepS s op).1.ctr ∧
+    (∀ o, (stepS s op).2 = some o → o.ctr < (stepS s op).1.ctr ∧ (o.retransmission = false → o.ctr = s.ctr)) := by
+  cases op with
+  | tx idx rel ha sai =>
+    have hf := preSend_facts s idx rel ha sai hinv
+    simp only at hf
+    simp only [stepS]
+    generalize hP : s.preSend idx rel ha sai = P at hf
+    obtain ⟨s', res⟩ := P
+    cases res with
+    | error e => exact ⟨hf.1, hf.2.1, fun o ho => by simp at ho⟩
+    | ok o =>
+      refine ⟨hf.1, hf.2.1, fun o' ho' => ?_⟩
+      simp only [Option.some.injEq] at ho'
+      subst ho'
+      have := hf.2.2 o rfl
+      exact ⟨this.1, fun h => (this.2.1 h).1⟩
+  | rx h now =>
+    have hf := postRecv_facts s h now
+    simp only [stepS]
+    refine ⟨?_, by omega, fun o ho => by simp at ho⟩
+    rw [hf.2]
+    exact slotsBelow_of_rtSub hf.1 hinv
+  | open_ id =>
+    simp only [stepS]
+    cases ha : s.addExch id .io with
+    | none => exact ⟨hinv, Nat.le_refl _, fun o ho => by simp at ho⟩
+    | some p =>
+      obtain ⟨s', i⟩ := p
+      have hc := (addExch_slot s s' id .io i ha).2.1
+      refine ⟨?_, by simp only; omega, fun o ho => by simp at ho⟩
+      simp only [hc]
+      exact slotsBelow_of_rtSub (rtSub_addExch s s' id .io i ha) hinv
+  | close i =>
+    have hf := removeExch_facts s i
+    simp only [stepS]
+    refine ⟨?_, by omega, fun o ho => by simp at ho⟩
+    rw [hf.2]
+    exact slotsBelow_of_rtSub hf.1 hinv
+  | free i =>
+    simp only [stepS]
+    exact ⟨slotsBelow_of_rtSub (free_facts s i) hinv, Nat.le_refl _, fun o ho => by simp at ho⟩
+
+/-- the relation the property states between an earlier and a later wire message of a session -/
+def LaterNewIsGreater (a b : TxOut) : Prop := b.retransmission = false → a.ctr < b.ctr
+
+theorem runS_facts (ops : List SOp) : ∀ (s : Sess), SlotsBelow s s.ctr →
+    s.ctr ≤ (runS s ops).1.ctr ∧
+    (∀ o ∈ (runS s ops).2, o.ctr < (runS s ops).1.ctr ∧ (o.retransmission = false → s.ctr ≤ o.ctr)) ∧
+    List.Pairwise LaterNewIsGreater (runS s ops).2 := by
+  induction ops with
+  | nil => intro s _; simp [runS]
+  | cons op ops ih =>
+    intro s hinv
+    have hst := stepS_facts s op hinv
+    have hrest := ih (stepS s op).1 hst.1
+    simp only [runS]
+    refine ⟨by omega, ?_, ?_⟩
+    · intro o ho
+      rcases List.mem_append.1 ho with h1 | h2
+      · cases hr : (stepS s op).2 with
+        | none => simp [hr] at h1
+        | some o1 =>
+          simp only [hr, List.mem_singleton] at h1
+          subst h1
+          have := hst.2.2 o hr
+          exact ⟨by omega, fun h => by have := this.2 h; omega⟩
+      · have := hrest.2.1 o h2
+        exact ⟨this.1, fun h => by have := this.2 h; omega⟩
+    · rw [List.pairwise_append]
+      refine ⟨?_, hrest.2.2, ?_⟩
+      · cases (stepS s op).2 <;> simp
+      · intro a ha b hb hnew
+        cases hr : (stepS s op).2 with
+        | none => simp [hr] at ha
+        | some o1 =>
+          simp only [hr, List.mem_singleton] at ha
+          subst ha
+          have h1 := (hst.2.2 a hr).1
+          have h2 := (hrest.2.1 b hb).2 hnew
+          omega
+
+/-- **Counters strictly increase**: on every history of a session (starting from any state in which
+the pending retransmissions lie below the send counter — e.g. a fresh session), a message that is
+not a retransmission carries a counter strictly greater than every earlier message of the session. -/
+theorem new_counter_above_all_earlier (s : Sess) (hinv : SlotsBelow s s.ctr) (ops : List SOp) :
+    List.Pairwise (fun a b => b.retransmission = false → a.ctr < b.ctr) (runS s ops).2 :=
+  (runS_facts ops s hinv).2.2
+
+/-- **Nonce uniqueness at the transport level**: two wire messages of a session with the same counter
+⇒ the later one is a retransmission. -/
+theorem same_counter_is_retransmission (s : Sess) (hinv : SlotsBelow s s.ctr) (ops : List SOp) :
+    List.Pairwise (fun a b => a.ctr = b.ctr → b.retransmission = true) (runS s ops).2 := by
+  refine List.Pairwise.imp ?_ (new_counter_above_all_earlier s hinv ops)
+  intro a b h heq
+  cases hb : b.retransmission with
+  | true => rfl
+  | false => have := h hb; omega
+
+/-- non-vacuity: a concrete history with a new message, its retransmission, an acknowledgement and
+another new message — counters 7, 7 (retransmission), 8. -/
+example :
+    ((runS ({ uid := 0, ctr := 7 } : Sess)
+        [.open_ 5, .tx (some 0) true none none, .tx (some 0) true none none,
+         .rx { ctr := 1, exch := 5, initiator := false, ack := some 7, reliable := true, newOk := true } 0,
+         .tx (some 0) true none none]).2.map (fun o => (o.ctr, o.retransmission, o.ack)))
+      = [(7, false, none), (7, true, none), (8, false, some 1)] := by decide
+
+/-! ## 2. A retransmission is identical to the original -/
+
+/-- what happens on one exchange while a message waits for its acknowledgement -/
+inductive MEv
+  /-- the sender loop retransmits: `pre_send` with the pending counter, same header input -/
+  | retransmit
+  /-- a message arrives on the exchange -/
+  | recv (rxCtr : Nat) (ack : Option Nat) (rel : Bool) (now : Nat)
+
+/-- the one-outstanding-message discipline of an exchange: while our message is unacknowledged the
+peer's messages on this exchange either carry an acknowledgement or do not ask for one -/
+def MEv.disciplined : MEv → Bool
+  | .retransmit => true
+  | .recv _ ack rel _ => ack.isSome || !rel
+
+/-- run the events; every retransmission yields `(counter, ack field)` as written into the header -/
+def runM (hdrAck sai : Option Nat) : Mrp → List MEv → List (Nat × Option Nat)
+  | _, [] => []
+  | m, .retransmit :: evs =>
+    match m.retrans with
+    | none => runM hdrAck sai m evs   -- acknowledged meanwhile: the sender loop stops
+    | some r =>
+      let res := m.preSend r.ctr true hdrAck sai
+      match res.2.2 with
+      | none => (r.ctr, res.2.1) :: runM hdrAck sai res.1 evs
+      | some _ => runM hdrAck sai res.1 evs
+  | m, .recv c a rel now :: evs => runM hdrAck sai (m.postRecv c a rel now).1 evs
+
+theorem runM_identical (hdrAck sai : Option Nat) (c0 : Nat) (a0 : Option Nat) (evs : List MEv) :
+    ∀ (m : Mrp), (∀ r, m.retrans = some r → r.ctr = c0) → m.ackCtr = a0 ∨ m.retrans = none →
+    (∀ e ∈ evs, e.disciplined = true) →
+    ∀ p ∈ runM hdrAck sai m evs, p = (c0, match a0 with
+      | some a => some a
+      | none => hdrAck) := by
+  induction evs with
+  | nil => intro m _ _ _ p hp; simp [runM] at hp
+  | cons ev evs ih =>
+    intro m hc hack hdis p hp
+    have hdis' : ∀ e ∈ evs, e.disciplined = true := fun e he => hdis e (List.mem_cons_of_mem _ he)
+    cases ev with
+    | retransmit =>
+      cases hrt : m.retrans with
+      | none =>
+        simp only [runM, hrt] at hp
+        exact ih m hc hack hdis' p hp
+      | some r =>
+        have hack0 : m.ackCtr = a0 := by
+          rcases hack with h | h
+          · exact h
+          · simp [hrt] at h
+        simp only [runM, hrt] at hp
+        have hout := preSend_outAck m r.ctr true hdrAck sai
+        have horig := preSend_retrans_origin m r.ctr true hdrAck sai
+        simp only at horig
+        have hcase := horig.2.2 r hrt rfl
+        have hnext : ∀ r', (m.preSend r.ctr true hdrAck sai).1.retrans = some r' → r'.ctr = c0 := by
+          intro r' hr'
+          rcases horig.1 r' hr' with ⟨hn, _⟩ | ⟨r0, hr0, hcc⟩
+          · simp [hrt] at hn
+          · rw [hcc]; exact hc r0 hr0
+        rcases hcase with herr | ⟨herr, hnone⟩
+        · simp only [herr] at hp
+          rcases List.mem_cons.1 hp with h1 | h2
+          · rw [h1, hout, hc r hrt, ← hack0]
+            rfl
+          · exact ih _ hnext (Or.inl (by rw [preSend_ackCtr m r.ctr true hdrAck sai herr, hack0])) hdis' p h2
+        · simp only [herr] at hp
+          exact ih _ hnext (Or.inr hnone) hdis' p hp
+    | recv c a rel now =>
+      simp only [runM] at hp
+      have hd : (a.isSome || !rel) = true := hdis _ (List.mem_cons_self ..)
+      cases hrt : m.retrans with
+      | none =>
+        -- nothing pending: nothing will be retransmitted any more unless `retrans` reappears, which
+        -- `post_recv` never does
+        have hn : (m.postRecv c a rel now).1.retrans = none := by
+          cases hx : (m.postRecv c a rel now).1.retrans with
+          | none => rfl
+          | some r' => have := postRecv_mrp_retrans m c a rel now r' hx; simp [hrt] at this
+        exact ih _ (fun r' hr' => by simp [hn] at hr') (Or.inr hn) hdis' p hp
+      | some r =>
+        have hpend := postRecv_pending m r c a rel now hrt
+        simp only at hpend
+        have hack0 : m.ackCtr = a0 := by
+          rcases hack with h | h
+          · exact h
+          · simp [hrt] at h
+        have hcnext : ∀ r', (m.postRecv c a rel now).1.retrans = some r' → r'.ctr = c0 := by
+          intro r' hr'
+          have := postRecv_mrp_retrans m c a rel now r' hr'
+          exact hc r' this
+        cases a with
+        | some av =>
+          by_cases hav : av = r.ctr
+          · subst hav
+            exact ih _ hcnext (Or.inr (hpend.1 rfl).2) hdis' p hp
+          · have := hpend.2.1 av rfl hav
+            rw [this] at hp
+            exact ih m hc hack hdis' p hp
+        | none =>
+          have hrel : rel = false := by simpa using hd
+          have := (hpend.2.2 rfl).2.2
+          simp only [hrel, Bool.false_eq_true, ↓reduceIte] at this
+          exact ih _ hcnext (Or.inl (by rw [hrel, this, hack0])) hdis' p hp
+
+/-- **Retransmissions are identical**: from the moment a reliable message with counter `c` has been
+sent on an exchange (its `pre_send` piggy-backed the acknowledgement `outAckOf m hdrAck`), every
+retransmission — under every interleaving with received messages that respect the exchange
+discipline, matching or stale acknowledgements, duplicates — writes exactly the same counter and
+the same acknowledgement field into the header. -/
+theorem retransmissions_identical (m : Mrp) (r : Retrans) (hdrAck sai : Option Nat) (evs : List MEv)
+    (hr : m.retrans = some r) (hdis : ∀ e ∈ evs, e.disciplined = true) :
+    ∀ p ∈ runM hdrAck sai m evs, p = (r.ctr, outAckOf m hdrAck) := by
+  intro p hp
+  have := runM_identical hdrAck sai r.ctr m.ackCtr evs m
+    (fun r' hr' => by rw [hr] at hr'; simp only [Option.some.injEq] at hr'; rw [hr'])
+    (Or.inl rfl) hdis p hp
+  exact this
+
+/-- non-vacuity of the hypotheses, and the retransmission really happens -/
+example : runM none none { retrans := some { base := 300, ctr := 9, count := 0 }, ack := some { ctr := 4, acked := true } }
+    [.retransmit, .recv 5 (some 3) true 0, .retransmit, .recv 6 none false 0, .retransmit]
+    = [(9, some 4), (9, some 4), (9, some 4)] := by decide
+
+/-- the discipline hypothesis is needed: a reliable message *without* an acknowledgement, received
+while ours is pending, replaces the pending acknowledgement and the next retransmission differs
+(same counter 9, different acknowledgement field). In rs-matter the exchange layer never produces
+this (a peer sends its next message only after ours arrived, and then acknowledges it). -/
+theorem ack_changes_without_discipline :
+    runM none none { retrans := some { base := 300, ctr := 9, count := 0 }, ack := some { ctr := 4, acked := true } }
+      [.retransmit, .recv 5 none true 0, .retransmit] = [(9, some 4), (9, some 5)] := by decide
+
+/-- `Session::pre_send` uses the remembered counter exactly for a slot with a pending retransmission,
+and does not consume a new one. -/
+theorem retransmission_reuses_counter (s : Sess) (i : Nat) (e : Exch) (r : Retrans) (rel : Bool)
+    (ha sai : Option Nat) (hinv : SlotsBelow s s.ctr) (hs : s.slot i = some e) (hr : e.mrp.retrans = some r) :
+    ∀ o, (s.preSend (some i) rel ha sai).2 = .ok o → o.ctr = r.ctr ∧ o.retransmission = true ∧
+      (s.preSend (some i) rel ha sai).1.ctr = s.ctr := by
+  intro o ho
+  have hf := (preSend_facts s (some i) rel ha sai hinv).2.2 o ho
+  cases hrt : o.retransmission with
+  | true =>
+    obtain ⟨i', e', r', hi, hs', hr', hc, hctr⟩ := hf.2.2 hrt
+    simp only [Option.some.injEq] at hi
+    subst hi
+    rw [hs] at hs'
+    simp only [Option.some.injEq] at hs'
+    subst hs'
+    rw [hr] at hr'
+    simp only [Option.some.injEq] at hr'
+    subst hr'
+    exact ⟨hc, rfl, hctr⟩
+  | false =>
+    -- impossible: with a pending retransmission the message is flagged as one
+    exfalso
+    unfold Sess.preSend at ho
+    simp only [hs, hr, Option.map_some] at ho
+    generalize e.mrp.preSend r.ctr rel ha sai = P at ho
+    obtain ⟨m', oa, err⟩ := P
+    cases err with
+    | none =>
+      simp only [Except.ok.injEq] at ho
+      subst ho
+      simp at hrt
+    | some er => cases er <;> simp at ho <;> (split at ho <;> simp at ho)
+
+/-! ## 3. Identifiers -/
+
+/-- `get_next_sess_id` never returns the local id of a session in the table — for every table
+with fewer than 65535 sessions (the capacity is `Consts.maxSessions`). -/
+theorem nextSessId_fresh (t : Table) (h1 : 1 ≤ t.nextSid) (h2 : t.nextSid ≤ 65535)
+    (hlen : t.sessions.length < 65535) : t.nextSessId.2 ∉ t.liveSessIds := by
+  unfold Table.nextSessId
+  exact allocLoop_fresh _ _ h1 h2 (by simpa [Table.liveSessIds] using hlen)
+
+/-- and never 0 (the id of unsecured sessions), and the allocator stays in range -/
+theorem nextSessId_range (t : Table) :
+    1 ≤ t.nextSessId.1.nextSid ∧ t.nextSessId.1.nextSid ≤ 65535 := by
+  unfold Table.nextSessId
+  exact allocLoop_next_range _ _ _
+
+/-- `get_next_exch_id` (after the repair) never returns the id of a live initiator-role exchange of
+any session — for every table with fewer than 65535 such exchanges. -/
+theorem nextExchId_fresh (t : Table) (h1 : 1 ≤ t.nextExch) (h2 : t.nextExch ≤ 65535)
+    (hlen : t.liveInitExchIds.length < 65535) : t.nextExchId.2 ∉ t.liveInitExchIds := by
+  unfold Table.nextExchId
+  exact allocLoop_fresh _ _ h1 h2 hlen
+
+theorem nextExchId_range (t : Table) :
+    1 ≤ t.nextExchId.1.nextExch ∧ t.nextExchId.1.nextExch ≤ 65535 := by
+  unfold Table.nextExchId
+  exact allocLoop_next_range _ _ _
+
+/-- the defect that was repaired, as a statement about the *old* role test: skipping only ids of
+responder-role exchanges lets the allocator return the id of a live initiator exchange
+(live initiator exchange 0x1234, allocator at 0x1234 ⇒ 0x1234 again). -/
+example : (allocLoop [] 65536 0x1234).1 = 0x1234 := by decide
+example : (allocLoop [0x1234] 65536 0x1234).1 = 0x1235 := by
+  unfold allocLoop; simp [allocLoop, bump]
+
+/-! ## 4. (id, role) stays unique among the live exchanges of a session -/
+
+/-- on a session no two live exchanges share (exchange id, role) -/
+def ExchUniq (s : Sess) : Prop :=
+  ∀ i j e f, s.slot i = some e → s.slot j = some f → e.id = f.id →
+    e.role.isResponder = f.role.isResponder → i = j
+
+theorem exchUniq_fresh (uid ctr : Nat) : ExchUniq ({ uid := uid, ctr := ctr } : Sess) := by
+  intro i j e f hi; simp [Sess.slot] at hi
+
+/-- slots of `s'` are slots of `s` with the same key, index by index -/
+theorem exchUniq_of_keys (s s' : Sess) (hu : ExchUniq s)
+    (hk : ∀ k e', s'.slot k = some e' → ∃ e, s.slot k = some e ∧ e.id = e'.id ∧ e.role.isResponder = e'.role.isResponder) :
+    ExchUniq s' := by
+  intro i j e f hi hj hid hrole
+  obtain ⟨e0, he0, h1, h2⟩ := hk i e hi
+  obtain ⟨f0, hf0, h3, h4⟩ := hk j f hj
+  exact hu i j e0 f0 he0 hf0 (by rw [h1, h3, hid]) (by rw [h2, h4, hrole])
+
+/-- **Received messages keep (id, role) unique**: a responder exchange is opened only when no live
+exchange has the header's key. -/
+theorem exchUniq_postRecv (s : Sess) (h : RxHdr) (now : Nat) (hu : ExchUniq s) :
+    ExchUniq (s.postRecv h now).1 := by
+  have hspec := postRecv_effect s h now
+  unfold RecvSpec at hspec
+  cases hr : (s.postRecv h now).2 with
+  | error er =>
+    have := hspec.2.2 er hr
+    exact exchUniq_of_keys s _ hu (fun k e' hk => ⟨e', by rw [← this k]; exact hk, rfl, rfl⟩)
+  | ok b =>
+    cases b with
+    | false =>
+      obtain ⟨i, e, m, _, hs, hs', hrest⟩ := hspec.1 hr
+      apply exchUniq_of_keys s _ hu
+      intro k e' hk
+      by_cases hki : k = i
+      · subst hki
+        rw [hs'] at hk
+        simp only [Option.some.injEq] at hk
+        subst hk
+        exact ⟨e, hs, rfl, rfl⟩
+      · exact ⟨e', by rw [← hrest k hki]; exact hk, rfl, rfl⟩
+    | true =>
+      obtain ⟨hg, hi, _, _, i0, m, hfree, hnew, hrest⟩ := hspec.2.1 hr
+      have hnone := getExchForRx_none s h hg
+      intro i j e f hsi hsj hid hrole
+      by_cases h1 : i = i0 <;> by_cases h2 : j = i0
+      · rw [h1, h2]
+      · exfalso
+        subst h1
+        rw [hnew] at hsi
+        simp only [Option.some.injEq] at hsi
+        subst hsi
+        rw [hrest j h2] at hsj
+        exact hnone j f hsj ⟨by simpa using hid.symm, by rw [← hrole, hi]; rfl⟩
+      · exfalso
+        subst h2
+        rw [hnew] at hsj
+        simp only [Option.some.injEq] at hsj
+        subst hsj
+        rw [hrest i h1] at hsi
+        exact hnone i e hsi ⟨by simpa using hid, by rw [hrole, hi]; rfl⟩
+      · rw [hrest i h1] at hsi
+        rw [hrest j h2] at hsj
+        exact hu i j e f hsi hsj hid hrole
+
+theorem mem_liveInitIds (s : Sess) (j : Nat) (f : Exch) (hs : s.slot j = some f)
+    (hr : f.role.isResponder = false) : f.id ∈ liveInitIds s := by
+  unfold liveInitIds
+  rw [List.mem_filterMap]
+  refine ⟨some f, List.mem_of_getElem? ((slot_eq_some s j f).1 hs), ?_⟩
+  simp [hr]
+
+/-- **Initiated exchanges keep (id, role) unique**: `initiate_for_session` takes its id from the
+allocator, which (`nextExchId_fresh`) avoids the ids of all live initiator exchanges. -/
+theorem exchUniq_addInit (s s' : Sess) (id i : Nat) (hu : ExchUniq s) (hfresh : id ∉ liveInitIds s)
+    (ha : s.addExch id .io = some (s', i)) : ExchUniq s' := by
+  obtain ⟨hfree, _, hsl⟩ := addExch_slot s s' id .io i ha
+  intro a b e f hsa hsb hid hrole
+  rw [hsl a] at hsa
+  rw [hsl b] at hsb
+  by_cases h1 : a = i <;> by_cases h2 : b = i
+  · rw [h1, h2]
+  · exfalso
+    simp only [h1, ↓reduceIte, Option.some.injEq] at hsa
+    simp only [h2, ↓reduceIte] at hsb
+    subst hsa
+    apply hfresh
+    have := mem_liveInitIds s b f hsb (by rw [← hrole]; rfl)
+    have hid' : id = f.id := hid
+    rw [hid']; exact this
+  · exfalso
+    simp only [h2, ↓reduceIte, Option.some.injEq] at hsb
+    simp only [h1, ↓reduceIte] at hsa
+    subst hsb
+    apply hfresh
+    have := mem_liveInitIds s a e hsa (by rw [hrole]; rfl)
+    have hid' : e.id = id := hid
+    rw [← hid']; exact this
+  · simp only [h1, ↓reduceIte] at hsa
+    simp only [h2, ↓reduceIte] at hsb
+    exact hu a b e f hsa hsb hid hrole
+
+/-- the ids of a session's live initiator exchanges are among the table's -/
+theorem liveInitIds_sub (t : Table) (s : Sess) (hs : s ∈ t.sessions) (x : Nat) (hx : x ∈ liveInitIds s) :
+    x ∈ t.liveInitExchIds := by
+  unfold Table.liveInitExchIds
+  exact List.mem_flatMap.2 ⟨s, hs, hx⟩
+
+theorem setDropped_isResponder (r : RoleSt) : r.setDropped.isResponder = r.isResponder := by
+  cases r <;> rfl
+
+/-- dropping an exchange keeps (id, role) unique -/
+theorem exchUniq_removeExch (s : Sess) (i : Nat) (hu : ExchUniq s) : ExchUniq (s.removeExch i).1 := by
+  apply exchUniq_of_keys s _ hu
+  intro k e' hk
+  unfold Sess.removeExch at hk
+  split at hk
+  · exact ⟨e', hk, rfl, rfl⟩
+  · rename_i e he
+    split at hk
+    · rw [slot_set] at hk
+      split at hk
+      · rename_i hik
+        subst hik
+        split at hk
+        · simp only [Option.some.injEq] at hk
+          subst hk
+          exact ⟨e, he, rfl, (setDropped_isResponder e.role).symm⟩
+        · simp at hk
+      · exact ⟨e', hk, rfl, rfl⟩
+    · rw [slot_set] at hk
+      split at hk
+      · split at hk <;> simp at hk
+      · exact ⟨e', hk, rfl, rfl⟩
+
+
+/-- **Locally chosen exchange ids are unique among the live exchanges of their role**: for every
+table (allocator seeded, fewer than 65535 live initiator exchanges — the table holds at most
+`maxSessions · maxExchanges`), giving a session of the table a new initiator exchange with the id
+`get_next_exch_id` returns keeps (id, role) unique on that session. -/
+theorem initiate_keeps_uniq (t : Table) (s s' : Sess) (i : Nat) (hs : s ∈ t.sessions) (hu : ExchUniq s)
+    (h1 : 1 ≤ t.nextExch) (h2 : t.nextExch ≤ 65535) (hlen : t.liveInitExchIds.length < 65535)
+    (ha : s.addExch t.nextExchId.2 .io = some (s', i)) : ExchUniq s' :=
+  exchUniq_addInit s s' _ i hu
+    (fun hin => nextExchId_fresh t h1 h2 hlen (liveInitIds_sub t s hs _ hin)) ha
+
+/-- non-vacuity: allocator at a live initiator id skips it; the new exchange gets the next id -/
+example :
+    let s : Sess := { uid := 0, ctr := 0, exchs := [some { id := 0x1234, role := .io }] }
+    let t : Table := { nextExch := 0x1234, sessions := [s] }
+    t.nextExchId.2 = 0x1235 := by decide
+
+end C15
